@@ -505,6 +505,10 @@ class InstanceState(interfaces.InspectionAttrInfo, Generic[_O]):
                     deleted_to_persistent(session, state)
 
             state.session_id = None
+            # release the strong reference *before* the listeners run: a
+            # listener may attach the (modified) object to another session,
+            # which establishes a new strong reference that must survive
+            state._strong_obj = None
 
             if to_transient and state.key:
                 del state.key
@@ -518,8 +522,6 @@ class InstanceState(interfaces.InspectionAttrInfo, Generic[_O]):
                 deleted_to_detached(session, state)
             elif pending and pending_to_transient is not None:
                 pending_to_transient(session, state)
-
-            state._strong_obj = None
 
     def _detach(self, session: Optional[Session] = None) -> None:
         if session:
